@@ -76,6 +76,7 @@ def compare(S, ev, prev=None):
             pp = prev["post"]
             if post["master"] != pp["master"]:
                 bad("C15:state(master)", "master %s -> %s across a refused call" % (pp["master"], post["master"]))
+                bad("C01:untouched-by-refusal", "master %s -> %s although the call was refused" % (pp["master"], post["master"]))
             if post["created"] != pp["created"]:
                 bad("C15:state(portfolios)", "portfolios %s -> %s across a refused call" % (pp["created"], post["created"]))
             for p in pp["created"]:
@@ -83,10 +84,17 @@ def compare(S, ev, prev=None):
                     continue
                 if post["cash"][p] != pp["cash"][p]:
                     bad("C15:state(cash)", "cash[%s] %s -> %s across a refused call" % (p, pp["cash"][p], post["cash"][p]))
+                    bad("C01:untouched-by-refusal", "cash[%s] %s -> %s although the call was refused: not a movement the property lists" % (
+                        p, pp["cash"][p], post["cash"][p]))
                 h0 = dict((a, (v["qty"], v["mv"])) for a, v in pp["hold"][p].items())
                 h1 = dict((a, (v["qty"], v["mv"])) for a, v in post["hold"][p].items())
                 if h0 != h1:
                     bad("C15:state(holdings)", "holdings[%s] %s -> %s across a refused call" % (p, h0, h1))
+                    bad("C02:untouched-by-refusal", "holdings[%s] %s -> %s although the call was refused, i.e. without a fill" % (p, h0, h1))
+                g0 = dict((a, (v["qty"], v["rpnl"], v["upnl"], v["tpnl"])) for a, v in pp["hold"][p].items())
+                g1 = dict((a, (v["qty"], v["rpnl"], v["upnl"], v["tpnl"])) for a, v in post["hold"][p].items())
+                if any(g0[a] != g1[a] for a in set(g0) & set(g1)):
+                    bad("C03:untouched-by-refusal", "P&L figures[%s] %s -> %s across a refused call (no fill, no re-mark)" % (p, g0, g1))
                 if post["queue"][p] != pp["queue"][p]:
                     bad("C15:state(pending-orders)", "queue[%s] %s -> %s across a refused call" % (p, pp["queue"][p], post["queue"][p]))
                 if post["hist"][p] != pp["hist"][p]:
